@@ -46,6 +46,30 @@ Rel(o, what) ==    \* expected answer of __lt__ etc: "T", "F" or "NI"
          [] what = "ge" -> IF o >= 0 THEN "T" ELSE "F"
 HashTuple(c, a) == [i \in HashIdx(c) |-> a[i]]
 
+(* A subclass S(C, **so) that declares one more (compared, hashed) field z.  so = "plain": no option of its own, *)
+(* everything is inherited and regenerated over all fields.  so = "eqF": eq=False - S gets no __eq__ of its own *)
+(* and INHERITS C's, which looks at C's fields only; without unsafe_hash it likewise inherits C's __hash__.     *)
+(* An explicit __hash__ in C's body is not in S's body.                                                         *)
+SubOpts == {"plain", "eqF"}
+SubCls(c, so) == [c EXCEPT !.xh = "F", !.eq = IF so = "eqF" THEN "F" ELSE c.eq]
+SubEqExp(c, so, a, b, za, zb) ==          \* two distinct instances of S
+  IF c.eq = "F" THEN FALSE
+  ELSE IF so = "eqF" THEN FieldsEq(c, a, b)
+  ELSE FieldsEq(c, a, b) /\ za = zb
+(* "own" = generated over C's hash fields and z; "base" = C's generated hash; "const" = C's explicit one;      *)
+(* "ident" = object.__hash__; "none" = unhashable                                                              *)
+SubHashKind(c, so) ==
+  LET act == HashAction(SubCls(c, so)) IN
+  IF act = "gen" THEN "own" ELSE IF act = "none" THEN "none"
+  ELSE LET b == HashAction(c) IN
+       IF b = "gen" THEN "base" ELSE IF b = "explicit" THEN "const" ELSE IF b = "none" THEN "none" ELSE "ident"
+SubHashEqExp(c, so, a, b, za, zb) ==      \* do the hashes of two distinct instances have to agree?  (only for own / base / const)
+  LET k == SubHashKind(c, so) IN
+  IF k = "own" THEN HashTuple(c, a) = HashTuple(c, b) /\ za = zb
+  ELSE IF k = "base" THEN HashTuple(c, a) = HashTuple(c, b) ELSE k = "const"
+(* "unsafe_hash" with an inherited __eq__ is unsafe by name (the standard library behaves alike): outside the law *)
+SubLawApplies(c, so) == HashIdx(c) \subseteq CmpIdx(c) /\ ~(so = "eqF" /\ c.uh = "T") /\ SubHashKind(c, so) \in {"own", "base", "const"}
+
 -----------------------------------------------------------------------------
 (* the cube as a state graph: a class, then up to three instances *)
 VARIABLES cls, xa, xb, xc, ph
@@ -78,4 +102,9 @@ OrderAntisymmetric ==
 EqualHashEqual ==
   (ph = "insts" /\ HashAction(cls) = "gen" /\ HashIdx(cls) \subseteq CmpIdx(cls) /\ cls.eq = "T") =>
      (E(xa, xb) => HashTuple(cls, xa) = HashTuple(cls, xb))
+(* ... and so do equal instances of a subclass that adds a field, whether it regenerates or inherits __eq__ / __hash__ *)
+SubEqualHashEqual ==
+  (ph = "insts" /\ HashAction(cls) # "raise") =>
+     \A so \in SubOpts, za \in Vals, zb \in Vals :
+        (SubLawApplies(cls, so) /\ SubEqExp(cls, so, xa, xb, za, zb)) => SubHashEqExp(cls, so, xa, xb, za, zb)
 =============================================================================
